@@ -66,7 +66,8 @@ def negs():
 
 def _mk_np(P, a, roles):
     """NP(D("le"),N(noun)) ; the terminals are tagged with the id of the argument they come from"""
-    d = P.D("le")
+    det = a.get("det")          # possessive determiner of the `maje` stratum: {"lemma": "mon", "pe": 2}
+    d = P.D("le") if det is None else (P.D(det["lemma"]).pe(det["pe"]) if det.get("pe") else P.D(det["lemma"]))
     n = P.N(a["noun"])
     if data()[0][a["noun"]]["N"].get("g") == "x":
         n.g(a["g"])
@@ -242,6 +243,117 @@ def _run(P, spec, nota):
     terms = expr.real()
     text = expr.detokenize(terms)
     return terms, text
+
+
+class _LangFr:
+    """the constructors of pyrealb with `lang="fr"` given explicitly everywhere (terminals: second argument,
+    phrases and dependents: keyword)"""
+    TERMINALS = ("N", "A", "Pro", "D", "V", "Adv", "C", "P", "DT", "NO", "Q")
+
+    def __init__(self, P):
+        self._P = P
+
+    def __getattr__(self, name):
+        f = getattr(self._P, name)
+        if name in self.TERMINALS:
+            return lambda lemma, *a: f(lemma, "fr", *a)
+        if name[:1].isupper() or name in ("root", "subj", "det", "mod", "comp", "coord"):
+            return lambda *a, **kw: f(*a, **dict(kw, lang="fr"))
+        return f
+
+
+CROSS_MODES = ("built-fr-realized-under-en", "lang-fr-under-en")
+
+
+def realize_cross(spec, nota, mode):
+    """the text (or the exception type) of the same French clause while ENGLISH is the current language:
+    `built-fr-realized-under-en`: constructed under loadFr(), then loadEn() before realize();
+    `lang-fr-under-en`: loadEn() all along, every constructor given lang="fr" """
+    P = pyrealb()
+    old = sys.stderr
+    sys.stderr = _Null()
+    try:
+        try:
+            if mode == "built-fr-realized-under-en":
+                P.loadFr()
+                expr = render_phrase(P, spec) if nota == "phrase" else render_dep(P, spec)
+                P.loadEn()
+            else:
+                P.loadEn()
+                L = _LangFr(P)
+                expr = render_phrase(L, spec) if nota == "phrase" else render_dep(L, spec)
+            terms = expr.real()
+            return expr.detokenize(terms)
+        except Exception as e:  # noqa: an exception is an output
+            return "!" + type(e).__name__
+    finally:
+        sys.stderr = old
+        P.loadFr()
+
+
+HISTORY_MODES = ("flags-on-clone-after-realize", "flags-on-same-object-after-realize")
+
+
+def realize_history(spec, nota, mode):
+    """the text (or exception type) of a clause with a HISTORY: the same clause WITHOUT its sentence-type flags is
+    built and realized first (no transformation has touched the tree), then the flags are applied to a clone()
+    of it / to the same object, and that is realized"""
+    P = pyrealb()
+    P.loadFr()
+    old = sys.stderr
+    sys.stderr = _Null()
+    try:
+        try:
+            bare = dict(spec, typ={})
+            expr = render_phrase(P, bare) if nota == "phrase" else render_dep(P, bare)
+            first = expr.realize()
+            if "[[" in first:
+                return None      # a morphology error already rewrote the tree (the verb became a Q): no stable history
+            if expr.realize() != first or expr.clone().realize() != first:
+                return None      # the flag-less clause itself does not survive a realization (contraction de+les…): C06 / C14
+            if mode == "flags-on-clone-after-realize":
+                expr = expr.clone()
+            expr.typ(dict(spec["typ"]))
+            terms = expr.real()
+            return expr.detokenize(terms)
+        except Exception as e:  # noqa: an exception is an output
+            return "!" + type(e).__name__
+    finally:
+        sys.stderr = old
+
+
+def history_keys(spec, answers=None, notas=("dep", "phrase")):
+    """{("history", mode, notation)}: the clause realizes differently when its flag-less form was realized before"""
+    res = set()
+    if not spec.get("typ"):
+        return res
+    # `.pro()` rewrites the tree at the first realization (the noun phrase becomes a pronoun): the flags would then be
+    # applied to another clause than the one specified — outside the stratum
+    sub = spec.get("subj")
+    if (sub is not None and sub.get("pro")) or any(c["k"] != "cl" and c["arg"].get("pro") for c in spec["comps"]):
+        return res
+    for nota in notas:
+        a = answers[nota] if answers else realize(spec, nota, both=False)
+        base = ("!" + a["err"]) if a["err"] else a["text"]
+        if "[[" in base:
+            continue
+        for mode in HISTORY_MODES:
+            h = realize_history(spec, nota, mode)
+            if h is not None and h != base:
+                res.add(("history", mode, nota))
+    return res
+
+
+def cross_keys(spec, answers=None, notas=("dep", "phrase")):
+    """{("cross_language", mode, notation)}: the clause realizes differently when English is the current language"""
+    res = set()
+    for nota in notas:
+        a = answers[nota] if answers else realize(spec, nota, both=False)
+        base = ("!" + a["err"]) if a["err"] else a["text"]
+        for mode in CROSS_MODES:
+            if realize_cross(spec, nota, mode) != base:
+                res.add(("cross_language", mode, nota))
+    return res
 
 
 def realize(spec, nota, both=True):
@@ -806,6 +918,8 @@ def abstract(spec):
         sa = "pro:%s:%d%s%s" % (s.get("var", "je"), s["pe"], s["n"], s["g"])
     else:
         sa = "np:%s%s%s" % (s["g"], s["n"], ".pro" if s.get("pro") else "")
+        if s.get("det"):
+            sa += ":det=%s.%s" % (s["det"]["lemma"], s["det"].get("pe"))
     cs = []
     for c in spec["comps"]:
         k, st = comp_kind(c), comp_style(c)
@@ -816,6 +930,8 @@ def abstract(spec):
             extra = ":%s%s" % (c["arg"]["g"], c["arg"]["n"])
             if c["k"] == "pp" and k in ("loc", "oth"):
                 extra += ":" + c["prep"]
+            if c["arg"].get("det"):
+                extra += ":det=%s.%s" % (c["arg"]["det"]["lemma"], c["arg"]["det"].get("pe"))
         cs.append("%s.%s%s" % (k, st, extra))
     typ = spec.get("typ") or {}
     ty = ",".join("%s=%s" % (k, typ[k]) for k in sorted(typ))
@@ -984,23 +1100,30 @@ def shrink(spec, fails, budget=400, lateral=None):
     return cur
 
 
-def c05_keys(spec, answers=None, notas=("dep", "phrase")):
-    """{(clause, detail, notation)} violated by one specification, on the real library"""
+def c05_keys(spec, answers=None, notas=("dep", "phrase"), cross=False):
+    """{(clause, detail, notation)} violated by one specification, on the real library; `cross`: also the stratum
+    "the same clause while English is the current language" (clause `cross_language`)"""
     res = set()
+    if answers is None:
+        answers = {n: realize(spec, n, both=False) for n in notas}
     for nota in notas:
-        a = answers[nota] if answers else realize(spec, nota, both=False)
+        a = answers[nota]
         for cl, det in oracle_c05(spec, nota, a):
             res.add((cl, det, nota))
+    if cross:
+        res |= cross_keys(spec, answers, notas)
     return res
 
 
 def c05_signature(spec, clause, detail, nota):
     """shrinks `spec` keeping the same violated clause/detail in notation `nota`; the signature names the notations in
     which the shrunk specification fails that way"""
+    cross = clause == "cross_language"
+
     def fails(sp):
-        return (clause, detail, nota) in c05_keys(sp, notas=(nota,))
+        return (clause, detail, nota) in c05_keys(sp, notas=(nota,), cross=cross)
     small = shrink(spec, fails, lateral=host_lateral if clause == "clitic_host" else None)
-    notas = "+".join(sorted(n for (c, d, n) in c05_keys(small) if (c, d) == (clause, detail)))
+    notas = "+".join(sorted(n for (c, d, n) in c05_keys(small, cross=cross) if (c, d) == (clause, detail)))
     return "fr|%s|%s:%s|%s" % (notas, clause, detail, abstract(small)), small, notas
 
 
@@ -1057,6 +1180,8 @@ def c08_key(spec, answers=None):
                 what = "lemma" if ta[i][1] != tb[i][1] else ("form" if ta[i][2] != tb[i][2] else "link")
                 return "%s:%s" % (what, ca)
             return "phrase:%s/dep:%s" % (ca, cb)
+    if _strip_end(a["text"]) != _strip_end(b["text"]):
+        return "noun-phrase-text"        # the tokens agree (noun phrases are collapsed): a determiner / noun form differs
     return "punctuation"
 
 
@@ -1342,6 +1467,95 @@ def c08_roots(ctx, maxk=3):
     return roots
 
 
+# ---- `maje` (typ({"maje": True})): possessive determiners mon/ton/notre… become notre/votre; je / tu subjects
+
+def maje_specs():
+    """every clause of the stratum: subject je / tu / nous / il or a noun phrase with a possessive determiner x a direct
+    object with a possessive determiner (mon/ton/son/notre/votre x person), alone, pronominalized or followed by a
+    prepositional complement with a possessive determiner x maje alone / with one other flag x tense p / pc / ip"""
+    def poss(i, lemma, pe, pro=False):
+        return dict(_np(i, pro=pro), det={"lemma": lemma, "pe": pe})
+    dets = [("mon", 1), ("mon", 2), ("mon", 3), ("notre", 1), ("notre", 2), ("ton", None), ("votre", None)]
+    subs = [dict(BASE_SUBJ, pe=1), dict(BASE_SUBJ, pe=2), dict(BASE_SUBJ, pe=1, n="p"), dict(BASE_SUBJ, var="moi", pe=2),
+            dict(BASE_SUBJ), poss(0, "mon", 1), poss(0, "mon", 2)]
+    typs = [{}, {"neg": True}, {"pas": True}, {"prog": True}, {"mod": "poss"}, {"refl": True}, {"int": "yon"},
+            {"int": "wos"}, {"int": "wod"}, {"int": "woi"}, {"int": "tag"}, {"neg": "plus", "int": "why"}]
+    out = []
+    seen = set()
+    for sub in subs:
+        for (dl, dp) in dets:
+            arrangements = [[{"k": "dir", "arg": poss(1, dl, dp)}],
+                            [{"k": "dir", "arg": poss(1, dl, dp, pro=True)}],
+                            [{"k": "dir", "arg": poss(1, dl, dp)}, {"k": "pp", "prep": "à", "arg": poss(2, "mon", 2)}],
+                            [{"k": "pp", "prep": "avec", "arg": poss(2, dl, dp)}, {"k": "dir", "arg": poss(1, "mon", 1)}]]
+            for comps in arrangements:
+                for ty in typs:
+                    for t in ("p", "pc", "ip"):
+                        for maje in (True, False):
+                            spec = {"subj": json.loads(json.dumps(sub)), "verb": verb_entry("donner"), "t": t,
+                                    "comps": json.loads(json.dumps(comps)), "typ": dict(ty, maje=maje) if maje else dict(ty)}
+                            if t == "ip":
+                                if sub["k"] != "pro" or sub["pe"] == 3 or ty.get("int"):
+                                    continue
+                                spec["vpe"], spec["vn"] = sub["pe"], sub["n"]
+                                spec["subj"] = None
+                            if not canonical(spec):
+                                continue
+                            key = core.canon(spec)
+                            if key not in seen:
+                                seen.add(key)
+                                out.append((("maje",), spec))
+    return out
+
+
+def _maje_unexplained(spec):
+    """the notations disagree on a clause of the stratum, and not in the class in which they already disagree without
+    `maje` (the noun phrases are collapsed in the token lists: a possessive determiner that differs gives the class
+    `noun-phrase-text`, which no clause without `maje` shows)"""
+    k1 = c08_key(spec)
+    if k1 is None:
+        return False
+    tw = dict(spec, typ={k: v for k, v in (spec.get("typ") or {}).items() if k != "maje"})
+    return k1 != c08_key(tw)
+
+
+def maje_sweep(ctx, reqs=()):
+    """both notations on every clause of the `maje` stratum (real library only: the possessive determiners are outside
+    the clause model, which collapses noun phrases).  A disagreeing clause that contains a root of the small-scope
+    exploration (passive with a pronoun agent, wos…) is attributed to it; one that disagrees in the same way without
+    `maje` is none of this stratum's; any other is shrunk and reported"""
+    import multiprocessing
+    specs = maje_specs()
+    chunk = max(50, len(specs) // 32)
+    jobs = [specs[i:i + chunk] for i in range(0, len(specs), chunk)]
+    pool = multiprocessing.get_context("fork").Pool(16)
+    try:
+        found = [x for r in pool.imap_unordered(_small_worker, jobs) for x in r]
+    finally:
+        pool.close()
+        pool.join()
+    ctx.cov["evaluations"] += 2 * len(specs)
+    ctx.notes["c08fr_maje_specs"] = len(specs)
+    ctx.notes["c08fr_maje_disagreeing"] = len(found)
+    rest = []
+    for x in found:
+        f = spec_features(x[1])
+        if not any(req <= f for _sig, req in reqs):
+            rest.append(x)
+    ctx.notes["c08fr_maje_not_attributed_to_a_root"] = len(rest)
+    done = set()
+    for (l, sp, k, a, b) in sorted(rest, key=lambda x: (len(core.canon(x[1])), core.canon(x[1]))):
+        if len(done) >= 40 or not _maje_unexplained(sp):
+            continue
+        small = shrink(sp, _maje_unexplained)
+        sig = "fr|phrase≠dep|maje-stratum|" + abstract(small)
+        if sig in done:
+            continue
+        done.add(sig)
+        texts = {n: (realize(small, n, both=False).get("err") or realize(small, n, both=False).get("text")) for n in ("phrase", "dep")}
+        ctx.fail(sig, {"op": "clause", "spec": small}, {"violates": "notations_agree_fr", "class": k, "stratum": "maje", "got": texts})
+
+
 # --------------------------------------------------------------------------------------------- the sweep
 
 def _is_trivial(spec):
@@ -1391,7 +1605,8 @@ def _worker(args):
             bump("typ:" + k)
         bump("subj:" + ("none" if sp["subj"] is None else sp["subj"]["k"]))
         if "c05" in want:
-            for (cl, det, notas) in c05_keys(sp, answers):
+            res["dist"]["cross_language_realizations"] = res["dist"].get("cross_language_realizations", 0) + 2 * len(CROSS_MODES)
+            for (cl, det, notas) in c05_keys(sp, answers, cross=True):
                 extra = ""
                 if cl == "clitic_order" and ">" in det:
                     extra = ":input-" + ("canonical" if input_order_canonical(sp) else "shuffled")
@@ -1481,6 +1696,8 @@ def report_c05(ctx, merged):
             if ":input-canonical" in det:
                 sig += "|input-order=canonical"
             texts = {n: realize(small, n, both=False).get("text") for n in notas.split("+")}
+            if cl == "cross_language":
+                texts = {"french-current": texts, "english-current": {n: realize_cross(small, n, base) for n in notas.split("+")}}
             ctx.fail(sig, {"op": "clause", "spec": small, "notas": notas, "clause": cl, "detail": base},
                      {"violates": cl, "detail": base, "got": texts, "failing_inputs_in_run": cnt})
             table[sig] = table.get(sig, 0) + cnt
@@ -1525,6 +1742,7 @@ def c08_fr(ctx, specs=None, merged=None, prepare=False):
                                                          "roots_of_this_family": sorted(fams[sig])})
             fams[sig] = [None]
     ctx.notes["c08fr_roots"] = len(roots)
+    maje_sweep(ctx, reqs)
     if merged is None:
         if specs is None:
             specs = gen_specs(ctx.rng, ctx.tier)
